@@ -469,3 +469,28 @@ class Effects:
                                     mut[q].add(o[1])
                                     changed = True
         return mut
+
+
+
+MUTABLE_DEFAULT_CTORS = {"builtins.list", "builtins.dict", "builtins.set", "builtins.bytearray", "collections.defaultdict", "collections.OrderedDict", "collections.deque", "collections.Counter"}
+
+
+def shared_default_state(project, eff, qualnames):
+    """[(FuncInfo, parameter, default expression, mutation sites)]: a mutable default argument (one object for all calls)
+    that the function mutates -- state carried from one call to the next."""
+    from .resolve import Scope
+    out = []
+    for q in sorted(qualnames):
+        fi = project.funcs.get(q)
+        if fi is None or q not in eff.sum:
+            continue
+        sc = Scope(project, fi.parent) if fi.parent else Scope(project, None, fi.module)
+        for p, d in fi.defaults().items():
+            mutable = isinstance(d, (ast.List, ast.Dict, ast.Set, ast.ListComp, ast.DictComp, ast.SetComp)) or \
+                (isinstance(d, ast.Call) and sc.resolve(d.func) in MUTABLE_DEFAULT_CTORS)
+            if not mutable:
+                continue
+            sites = list(eff.sum[q].param_mut.get(p, []))
+            if sites:
+                out.append((fi, p, d, sites))
+    return out
